@@ -19,6 +19,7 @@ import Babylon.BQ.TryFailEx
 import Babylon.BQ.PubView
 import Babylon.BQ.WakeView
 import Babylon.BQ.OutstandingEx
+import Babylon.BQ.ThreadBound
 
 namespace Babylon.Properties.C01
 open Babylon.BQ Babylon.Core Babylon.Gen.BQ
@@ -244,6 +245,44 @@ theorem bq_outstanding_bound_needed_held :
 
 /-- non-vacuity: a blocking push that has compared its slot version under the bound and reached its callback -/
 example : ∃ y t, ReachO exCfg y ∧ (y.s.pc t).held .push 0 := ⟨ex3, 1, ex3_reachO, rfl, rfl⟩
+
+/-! ### count → span: `OutstandingBound.held` from a bound on the number of threads (Babylon/BQ/ThreadBound.lean) -/
+
+/-- the tickets of one side a thread holds lie within two rounds of the ring -/
+theorem bq_held_width (c : Cfg) (p : Pc) (hw : p.wf c) (sd : Side) :
+    ∃ R, ∀ i, p.held sd i → R ≤ i ∧ i < R + 2 * c.cap := held_width c p hw sd
+
+/-- **count → span.**  If only threads `0 … n-1` run (one call at a time each, as in the model), an outstanding ticket `i`
+has `idx ≤ i + 2·n·capacity`: the tickets `i, i + 2·cap, i + 4·cap, …` below the dispenser are all outstanding (same slot, later
+rounds) and pairwise held by different threads (`bq_held_width`), pigeonhole. -/
+theorem bq_outstanding_span_of_threads (c : Cfg) (y : Sys) (hI : Inv c y) (n : Nat) (hn : ∀ t, n ≤ t → y.s.pc t = .idle)
+    (u : Nat) (sd : Side) (i : Nat) (hh : (y.s.pc u).held sd i) : y.s.idx sd ≤ i + (2 * n) * c.cap :=
+  held_span_of_threads hI n hn u sd i hh
+
+/-- fewer than 2^14 = 16384 threads ⇒ the `held` part of `OutstandingBound` (client-checkable) -/
+theorem bq_held_bound_of_threads (c : Cfg) (y : Sys) (hI : Inv c y) (n : Nat) (hn : ∀ t, n ≤ t → y.s.pc t = .idle) (hlt : n < 16384)
+    (t : Nat) (sd : Side) (i : Nat) (hh : (y.s.pc t).held sd i) : y.s.idx sd < i + 32767 * c.cap :=
+  held_bound_of_threads hI n hn hlt t sd i hh
+
+/-- a thread bound can NOT give the `stale` part: `staleSys` satisfies `Inv`, only thread 1 is inside a call, and its
+truncated comparison is wrong -/
+theorem bq_thread_bound_not_sufficient_for_stale :
+    (∀ t, 2 ≤ t → staleSys.s.pc t = .idle) ∧ Inv oneCfg staleSys ∧ ¬ Faithful oneCfg staleSys.s 1 := stale_not_from_threads
+
+/-- executions of the unrestricted system with `n < 16384` threads whose in-flight index reads satisfy `WatchBound`
+(`stale`, `ahead`) are executions under `OutstandingBound` -/
+theorem bq_reach_under_thread_bound (c : Cfg) (n : Nat) (hlt : n < 16384) (y : Sys) (h : ReachT c n y) : ReachO c y :=
+  reachO_of_reachT hlt h
+
+/-- **bq_all_under_thread_bound**: the C01 safety theorems (`bq_all_under_outstanding_bound`) for unbounded traffic with
+fewer than 16384 threads, assuming only `WatchBound` for try_* / timed / waker index reads -/
+theorem bq_all_under_thread_bound (c : Cfg) (n : Nat) (hlt : n < 16384) (y : Sys) (h : ReachT c n y) :
+    ReachF c y ∧ Inv c y ∧ (∀ t u sl, (y.s.pc t).inCb c sl → (y.s.pc u).inCb c sl → t = u) ∧
+    (∀ i v, y.s.poppedV i = some v → y.s.pushedV i = some v) ∧
+    (∀ m, List.Sublist (poppedUpTo y.s m) (pushedUpTo y.s m)) := by
+  have ho := reachO_of_reachT hlt h
+  have hall := bq_all_under_outstanding_bound c y ho
+  exact ⟨reachF_of_reachO ho, hall.1, hall.2.1, hall.2.2.2.1, hall.2.2.2.2.1⟩
 
 /-! ### try-failure justification
 Ghost record (Babylon/BQ/TryFail.lean, TryFailN.lean): a product `Sys × ghost` whose steps are exactly the `StepF` steps plus a
